@@ -176,18 +176,38 @@ fn c04_requests_complete_and_within_head() {
     core::mem::forget((ours, theirs, needs));
 }
 
-/// single foreign actor, larger domain (thorough tier)
-#[kani::proof]
-fn c04_requests_single_actor_deep() {
-    let (our_a, their_a) = (any_side(), any_side());
+/// single foreign actor, case-split on the partial-version situation (each case keeps the
+/// solver's state small; their union is every pair of well-formed states for one actor)
+fn single_actor(case: u8) {
+    let (mut our_a, mut their_a) = (any_side(), any_side());
+    match case {
+        // 0: we hold no version partially (Full requests only)
+        0 => kani::assume(our_a.pv == 0),
+        // 1: we hold one partially, the peer does not hold THAT version partially
+        1 => kani::assume(our_a.pv != 0 && their_a.pv != our_a.pv),
+        // 2: both hold the same version partially
+        _ => kani::assume(our_a.pv != 0 && their_a.pv == our_a.pv),
+    }
     let mut ours = SyncStateV1 { actor_id: SELF, ..Default::default() };
     let mut theirs = SyncStateV1 { actor_id: PEER, ..Default::default() };
     put(&mut ours, A, &our_a, false);
     put(&mut theirs, A, &their_a, kani::any());
     let needs = ours.compute_available_needs(&theirs);
     check_actor(&needs, A, &our_a, &their_a);
-    kani::cover!(needs.get(&A).map(|l| l.len() >= 3).unwrap_or(false), "three or more requests");
+    kani::cover!(needs.get(&A).is_some(), "something requested");
     core::mem::forget((ours, theirs, needs));
+}
+#[kani::proof]
+fn c04_requests_no_partial_of_ours() {
+    single_actor(0);
+}
+#[kani::proof]
+fn c04_requests_partial_ours_only() {
+    single_actor(1);
+}
+#[kani::proof]
+fn c04_requests_partial_on_both_sides() {
+    single_actor(2);
 }
 
 // ---------------------------------------------------------------------------------------------
